@@ -1,6 +1,7 @@
-"""C20 — cutting propagation short never makes a claim wrong: pass budgets
-0, 1, 2, 3, 5, 9, 14, 22, fixpoint for values and degrees independently, plus a
-source check that the time box is consulted only where the pass budget acts."""
+"""C20 — cutting propagation short never makes a claim wrong: pass budgets 0 and
+fixpoint plus nine budget pairs drawn with the seed from 1..60 (values alone,
+degrees alone, both), the consumers CS0013 / CS0010 run at every cut, plus a
+structural source check that the pass loops end only through the time-box test."""
 import os
 import re
 import common
@@ -30,12 +31,34 @@ def _span(text, start):
     raise ValueError("unbalanced braces")
 
 
+CLOCK = r"\.\s*elapsed\s*\(|MAX_ANALYSIS_DURATION"
+
+
+def _ifs(text):
+    """(start of `if`, condition text, body start, body end) of every `if <cond> {` in text (else-if included)."""
+    out = []
+    for m in re.finditer(r"\bif\b", text):
+        try:
+            a, b = _span(text, m.end())
+        except ValueError:
+            continue
+        out.append((m.start(), text[m.end():a], a, b))
+    return out
+
+
 def source_check(repo):
-    """Reads cfg.rs: the time box (`MAX_ANALYSIS_DURATION`, `.elapsed()`) may be consulted only by the two guarded tests
-    inside the pass loops of propagate_values / propagate_degrees (which is where the pass budget of the harness acts);
-    the hook lines that make the budget act must be there. Returns {"problems": [...], "constant": ..., ...}."""
+    """Reads cfg.rs STRUCTURALLY (comments stripped; no fixed spelling of the test, of `start` or of the loop):
+      * the time box (`MAX_ANALYSIS_DURATION`, `.elapsed()`) is consulted only inside the pass loops of
+        propagate_values / propagate_degrees - directly (per pass or per block) or through a helper function that is called
+        only from there - and a time-box test does nothing but stop (`rerun = false`, `break`, a log line);
+      * a pass loop ends in no other way: every `rerun = false` / `break` / `return` inside it belongs to a time-box test,
+        to the reset at the head of the loop, or to a fixpoint exit `if !<flag> { break; }` (a pass-count cap or any other
+        second early stop is reported: the pass budget of the harness does not drive it);
+      * nothing propagates behind the pass loop (no finalisation pass, no change of the merge control);
+      * the hook lines that make the budget act are there (budget test before the loop, shifted start inside and behind it).
+    Returns {"problems": [...], "constant": ..., ...}."""
     path = os.path.join(repo, "program_structure/src/control_flow_graph/cfg.rs")
-    out = {"file": path, "problems": [], "constant": None, "uses_of_the_time_box": 0}
+    out = {"file": path, "problems": [], "constant": None, "uses_of_the_time_box": 0, "time_box_tests": 0, "helpers": []}
     try:
         text = _strip_comments(open(path).read())
     except OSError as e:
@@ -46,13 +69,27 @@ def source_check(repo):
         out["problems"].append("the definition `const MAX_ANALYSIS_DURATION: Duration = ...;` was not found")
         return out
     out["constant"] = " ".join(m.group(1).split())
-    allowed = [(m.start(), m.end())]           # the definition itself
+    allowed = [(m.start(), m.end())]
     mm = re.search(r"pub\s+mod\s+verif_budget\b", text)
     if mm:
-        a, b = _span(text, mm.end())
-        allowed.append((a, b))                 # the hook module (compiled under cfg(circomspect_verif) only)
+        allowed.append(_span(text, mm.end()))
     else:
         out["problems"].append("hook module `verif_budget` is missing")
+    # helper functions that consult the clock (anything but the two propagation functions and the hook module)
+    helpers = {}
+    for fm in re.finditer(r"\bfn\s+(\w+)\s*(?:<[^>]*>)?\s*\(", text):
+        name = fm.group(1)
+        try:
+            fa, fb = _span(text, fm.end())
+        except ValueError:
+            continue
+        if name in ("propagate_degrees", "propagate_values") or any(a <= fa < b for a, b in allowed[1:]):
+            continue
+        if re.search(CLOCK, text[fa:fb]):
+            helpers[name] = (fa, fb)
+    out["helpers"] = sorted(helpers)
+    helper_call = ("|" + "|".join(r"\b%s\s*\(" % h for h in helpers)) if helpers else ""
+    loop_spans = []
     for fn, budget in (("propagate_degrees", "DEGREE_PASSES"), ("propagate_values", "VALUE_PASSES")):
         fm = re.search(r"fn\s+%s\s*\(" % fn, text)
         if not fm:
@@ -60,45 +97,70 @@ def source_check(repo):
             continue
         fa, fb = _span(text, fm.end())
         body = text[fa:fb]
-        loops = [w for w in re.finditer(r"while\s+rerun\s*\{", body)]
-        if len(loops) != 1:
-            out["problems"].append("%s: expected exactly one `while rerun` pass loop, found %d" % (fn, len(loops)))
+        now = re.search(r"let\s+(?:mut\s+)?(\w+)\s*=\s*Instant::now\(\)", body)
+        if not now:
+            out["problems"].append("%s: no `let <start> = Instant::now();`" % fn)
             continue
-        la, lb = _span(body, loops[0].start())
+        lm = re.search(r"\b(while\b[^{;]*|loop\s*)\{", body[now.end():])
+        if not lm:
+            out["problems"].append("%s: no pass loop behind `Instant::now()`" % fn)
+            continue
+        la, lb = _span(body, now.end() + lm.start())
         loop = body[la:lb]
-        tests = list(re.finditer(r"if\s+start\s*\.\s*elapsed\s*\(\s*\)\s*>\s*MAX_ANALYSIS_DURATION\s*\{", loop))
-        if len(tests) != 1:
-            out["problems"].append("%s: expected exactly one test `if start.elapsed() > MAX_ANALYSIS_DURATION` inside the pass loop, found %d" % (fn, len(tests)))
-        for t in tests:
-            ta, tb = _span(loop, t.end() - 1)
-            stmts = [x.strip() for x in re.sub(r"(debug|trace|info|warn)!\s*\([^;]*\)\s*;", "", loop[ta + 1:tb - 1]).split(";") if x.strip()]
-            if stmts != ["rerun = false"]:
-                out["problems"].append("%s: the body of the time-box test does more than `rerun = false`: %r" % (fn, stmts))
-            allowed.append((fa + la + t.start(), fa + la + t.end()))
-        # the hook lines: budget test before the loop, shifted start inside the loop (behind the passes of one round) and behind the loop
+        loop_spans.append((fa + la, fa + lb))
+        # time-box tests inside the loop
+        stops_ok = []
+        ntests = 0
+        for (i0, cond, ba, bb) in _ifs(loop):
+            if re.search(CLOCK + helper_call, cond):
+                ntests += 1
+                stmts = [x_.strip() for x_ in re.sub(r"\b(debug|trace|info|warn)!\s*\([^;]*\)\s*;", "", loop[ba + 1:bb - 1]).split(";") if x_.strip()]
+                extra = [x_ for x_ in stmts if x_ not in ("rerun = false", "break") and not re.fullmatch(r"\w+\s*=\s*(false|true)", x_)]
+                if extra:
+                    out["problems"].append("%s: a time-box test does more than stop: %r" % (fn, extra[:3]))
+                stops_ok.append((ba, bb))
+            elif re.fullmatch(r"\s*!\s*\w+\s*", cond):
+                stops_ok.append((ba, bb))        # the fixpoint exit of a `loop { .. }`
+        out["time_box_tests"] += ntests
+        if ntests == 0:
+            out["problems"].append("%s: no test of the time box inside the pass loop" % fn)
+        head = re.match(r"\{\s*(?:\w+\s*=\s*false\s*;)", loop)
+        for st in re.finditer(r"\brerun\s*=\s*false\b|\bbreak\b|\breturn\b", loop):
+            if head and st.start() < head.end():
+                continue
+            if not any(a <= st.start() < b for a, b in stops_ok):
+                ln = text.count("\n", 0, fa + la + st.start()) + 1
+                out["problems"].append("%s (cfg.rs:%d): the pass loop is left through `%s` outside a time-box test: a second early stop that the pass budget does not drive: %s"
+                                       % (fn, ln, st.group(0), text.splitlines()[ln - 1].strip()[:120]))
+        # hooks
         pre, post = body[:la], body[lb:]
         if not re.search(r"verif_budget::exhausted\(\s*&verif_budget::%s" % budget, pre):
             out["problems"].append("%s: hook line `verif_budget::exhausted(&verif_budget::%s, ..)` before the pass loop is missing" % (fn, budget))
-        hk = r"let\s+start\s*=\s*\{?[^;]*verif_budget::start_after\(\s*&verif_budget::%s" % budget
-        inside = re.search(r"let\s+start\s*=\s*\{[^}]*verif_budget::start_after\(\s*&verif_budget::%s" % budget, loop)
-        if not inside:
-            out["problems"].append("%s: hook line `let start = { .. verif_budget::start_after(&verif_budget::%s, ..) }` inside the pass loop is missing" % (fn, budget))
-        elif tests and inside.start() > tests[0].start():
-            out["problems"].append("%s: the hook inside the pass loop stands behind the time-box test" % fn)
-        after = re.search(hk, post)
+        if not re.search(r"let\s+\w+\s*=\s*\{[^}]*verif_budget::start_after\(\s*&verif_budget::%s" % budget, loop):
+            out["problems"].append("%s: hook line `let <start> = { .. verif_budget::start_after(&verif_budget::%s, ..) }` inside the pass loop is missing" % (fn, budget))
+        after = re.search(r"let\s+\w+\s*=\s*[^;]*verif_budget::start_after\(\s*&verif_budget::%s" % budget, post)
         if not after:
-            out["problems"].append("%s: hook line `let start = verif_budget::start_after(&verif_budget::%s, ..)` behind the pass loop is missing" % (fn, budget))
-        elif re.search(r"elapsed|MAX_ANALYSIS_DURATION|Instant", post[:after.start()]):
+            out["problems"].append("%s: hook line `let <start> = verif_budget::start_after(&verif_budget::%s, ..)` behind the pass loop is missing" % (fn, budget))
+        elif re.search(CLOCK + r"|Instant", post[:after.start()]):
             out["problems"].append("%s: the time box is consulted between the pass loop and the hook line behind it (there the pass budget is not visible)" % fn)
-        if not re.search(r"let\s+start\s*=\s*Instant::now\(\)", pre):
-            out["problems"].append("%s: `let start = Instant::now();` before the pass loop is missing" % fn)
-    for u in re.finditer(r"MAX_ANALYSIS_DURATION|\.\s*elapsed\s*\(", text):
+        fin = re.search(r"\.\s*propagate_(degrees|values)\s*\(|set_merge_control|\.\s*set_degree\s*\(|\.\s*add_variable\s*\(", post)
+        if fin:
+            ln = text.count("\n", 0, fa + lb + fin.start()) + 1
+            out["problems"].append("%s (cfg.rs:%d): propagation continues behind the pass loop (a finalisation that no pass budget cuts): %s" % (fn, ln, text.splitlines()[ln - 1].strip()[:120]))
+    # calls of the helpers outside the pass loops
+    for h, (ha, hb) in helpers.items():
+        allowed.append((ha, hb))
+        for c in re.finditer(r"\b%s\s*\(" % h, text):
+            if ha - 40 <= c.start() < hb:
+                continue
+            if not any(a <= c.start() < b for a, b in loop_spans):
+                ln = text.count("\n", 0, c.start()) + 1
+                out["problems"].append("cfg.rs:%d: the helper `%s` (which consults the time box) is called outside the pass loops" % (ln, h))
+    for u in re.finditer(CLOCK, text):
         out["uses_of_the_time_box"] += 1
-        if not any(a <= u.start() < b for a, b in allowed):
+        if not any(a <= u.start() < b for a, b in allowed + loop_spans):
             line = text.count("\n", 0, u.start()) + 1
-            out["problems"].append("cfg.rs:%d: `%s` is used outside the two guarded tests inside the pass loops: %s"
-                                   % (line, u.group(0).strip(), text.splitlines()[line - 1].strip()[:120]))
-    # other files of the crate must not consult a clock either
+            out["problems"].append("cfg.rs:%d: `%s` is used outside the pass loops: %s" % (line, u.group(0).strip(), text.splitlines()[line - 1].strip()[:120]))
     others = []
     root = os.path.join(repo, "program_structure/src")
     for d, _, fs in os.walk(root):
@@ -119,24 +181,51 @@ def gen(ctx):
 
 # One pass of the real loops stops at the first block that learns something (`rerun = rerun || ...`), so even small
 # definitions need a dozen passes and more: the larger budgets cut where claims on merged values already exist.
-BUDGETS = [("0", "0"), ("1", "-"), ("-", "1"), ("2", "2"), ("3", "1"), ("1", "3"), ("5", "5"), ("-", "9"), ("14", "14"), ("-", "22"), ("-", "-")]
+FIXED_BUDGETS = [("0", "0"), ("-", "-")]
+
+
+def budgets_of(rng):
+    """The cut before the first pass and the fixpoint in every run; nine more budget pairs drawn with the seed (one real
+    pass stops at the first block that learns something, so definitions need dozens of passes: the cut points 1..60 are
+    all reached over the seeds, for values alone, for degrees alone and for both)."""
+    def k():
+        return str(rng.choice([1, 2, 3, 4, 5, 6, 7, 8, 9, 10, 11, 12, 13, 14, 16, 18, 20, 22, 25, 28, 32, 36, 40, 45, 50, 60]))
+    out = list(FIXED_BUDGETS)
+    while len(out) < 11:
+        j = len(out) % 3
+        b = (k(), "-") if j == 0 else (("-", k()) if j == 1 else (k(), k()))
+        if b not in out:
+            out.append(b)
+    return out
+
+
+def long_chain(rng):
+    """A definition that needs more than 4096 passes of each propagation (one pass = one fact): a merged value behind 1100
+    assignments. A cap on the NUMBER of passes with an optimistic finalisation shows on it at the fixpoint budget."""
+    c = rng.randrange(1, 4)
+    return ("template T(n) { signal input a; signal output b; var x = 0; " + " ".join("x = x + %d;" % (i % 7) for i in range(1100))
+            + " var y; if (a == %d) { y = 1; } else { y = 2; } var z = 3; if (n > %d) { z = 4; } b <-- y * x + z; }" % (c, c))
 
 
 def run(ctx, proofs):
-    r = propeng.run(ctx, proofs, BUDGETS, check_vals=True, check_degs=True,
-                    n_quick=260, n_thorough=5000, props=("C06", "C07", "C20"))
-    propeng.verdict(ctx, proofs, r, kinds=("value", "degree", "finding", None),
-                    known_classes=(),
-                    extra_cov={"budgets": BUDGETS,
+    budgets = budgets_of(ctx.rng)
+    r = propeng.run(ctx, proofs, budgets, check_vals=True, check_degs=True,
+                    n_quick=260, n_thorough=5000, props=("C06", "C07", "C20"), check_advice=True,
+                    extra_progs=[("BN254", long_chain(ctx.rng), "long-chain")])
+    propeng.verdict(ctx, proofs, r, kinds=("value", "degree", "finding", "advice", None),
+                    known_classes=("cs0013-sum-of-products",),
+                    extra_cov={"budgets": budgets,
                                "open_statements": ["the universal budget theorems (C20_mirror_validated_at_every_budget for value claims, "
                                                    "C20_degrees_validated_at_every_budget / C20_propagate_degrees_validated_at_every_budget for degree "
                                                    "ranges) are about the mirror Model.Propagate, which is compared with the implementation pass by pass on "
                                                    "every explored definition",
-                                                   "the degree half inherits what C07's graph theorem is about: the lock-step family semantics Spec.DegSem with `pick_ok` assumed; "
-                                                   "concrete runs are represented when all valuations follow the same path; families with diverging paths and signal-dependent trip "
-                                                   "counts are open (see C07 open_statements); at a cut the oracle judges them per iteration context",
-                                                   "the pass budget replaces the wall clock: that no other code consults the clock is a SOURCE check of cfg.rs (time_box_source_check), "
-                                                   "not a theorem; budget 0 is a hook-only path (the real loop always runs one pass)"]})
+                                                   "the degree half inherits what C07's graph theorem is about (see C07 open_statements): at a cut only the same-path "
+                                                   "composition is stated (C20_any_cut_degree_claims_true_of_concrete_runs); signal-dependent trip counts: validator + oracle only",
+                                                   "the pass budget replaces the wall clock: that the pass loops are left in no other way than through the time-box test (no "
+                                                   "pass-count cap, no finalisation behind the loop, no clock elsewhere) is a STRUCTURAL SOURCE check of cfg.rs "
+                                                   "(time_box_source_check), not a theorem; budget 0 is a hook-only path (the real loop always runs one pass)",
+                                                   "consumers of partial facts: CS0013 is run by the harness at every budget and must stand on a validated claim; CS0010 "
+                                                   "(and CS0014-16) are only counted at a cut, their rule is C11's"]})
     source_verdict(ctx)
 
 
@@ -145,11 +234,8 @@ def source_verdict(ctx):
     if not SOURCE:
         SOURCE.update(source_check(common.REPO))
     ctx.coverage["time_box_source_check"] = {"MAX_ANALYSIS_DURATION": SOURCE.get("constant"), "uses_of_the_time_box_in_cfg_rs": SOURCE.get("uses_of_the_time_box"),
-                                             "problems": SOURCE.get("problems"),
-                                             "rule": "cfg.rs is read (comments stripped): MAX_ANALYSIS_DURATION and .elapsed() occur only in the definition, in the hook "
-                                                     "module verif_budget and in the one test `if start.elapsed() > MAX_ANALYSIS_DURATION { rerun = false; }` inside the "
-                                                     "`while rerun` loop of propagate_values and of propagate_degrees; the hook lines (budget test before the loop, shifted "
-                                                     "start inside and behind the loop) are present; no other file of program_structure consults a clock"}
+                                             "time_box_tests_inside_the_pass_loops": SOURCE.get("time_box_tests"), "helpers_that_consult_the_clock": SOURCE.get("helpers"),
+                                             "problems": SOURCE.get("problems"), "rule": " ".join((source_check.__doc__ or "").split())}
     if SOURCE.get("problems"):
         ctx.violation("the time box of propagation is consulted where the pass budget of the harness does not act, or the hook lines are missing: "
                       + "; ".join(SOURCE["problems"])[:600],
